@@ -240,6 +240,23 @@ func (e *Engine) vrtIntrinsic(fn *ssa.Function, vn string, args []Value, st *Sta
 		return nil, true
 	case "SameType":
 		return e.typeEq(st, args[0], args[1]), true
+	case "FieldOptions":
+		// vrtFieldOptions(o vrtOpts) *descriptor.FieldOptions: the option record travels with the object
+		rec, ok := args[0].(*StructV)
+		if !ok {
+			panic(unsupported("vrtFieldOptions argument"))
+		}
+		pt := fn.Signature.Results().At(0).Type().Underlying().(*types.Pointer).Elem()
+		o := newObj(pt)
+		st.heap[o] = zero(pt)
+		e.optRecs[o] = rec
+		return &PtrV{Alts: []PAlt{{G: TrueT, O: o}}}, true
+	case "Generator":
+		// vrtGenerator() *generator.Generator: an opaque non-nil generator over the fixed universe
+		pt := fn.Signature.Results().At(0).Type().Underlying().(*types.Pointer).Elem()
+		o := newObj(pt)
+		st.heap[o] = &OpaqueV{Name: "generator"}
+		return &PtrV{Alts: []PAlt{{G: TrueT, O: o}}}, true
 	case "Event":
 		// vrt.Event(name) records a marker under the current reach condition
 		e.events = append(e.events, Event{Name: constStr(args[0], "event name"), G: e.reach(st)})
